@@ -274,6 +274,12 @@ def special_trees():
             ir.Add(ir.Multiply(ir.IntegerLiteral(-1), u), ir.Multiply(ir.IntegerLiteral(-1), v)),
             ir.Multiply(ir.IntegerLiteral(-1), ir.Multiply(u, v)), ir.Subtract(u, ir.Multiply(ir.IntegerLiteral(-1), v)),
             ir.Multiply(ir.BooleanToInteger(ir.LessThan(x, y)), ir.IntegerLiteral(2))]
+    # float literals whose shortest round-trip spelling needs 17 significant digits, an exponent, or is a
+    # denormal / the largest double: both printers must emit exactly this double
+    for val in (0.1 + 0.2, 3.3000000000000003, 1234567.1234567891, 1.0 / 3.0, 2.0 / 3.0, 0.1, 1e-7, 1.5e-5, 123456789012345680.0,
+                1e16, 1e22, 1e23, 5e-324, 2.2250738585072014e-308, 1.7976931348623157e308, 9007199254740993.0, 4.35, 0.7):
+        out.append(ir.Multiply(u, ir.FloatLiteral(val)))
+        out.append(ir.Add(ir.FloatLiteral(val), x))
     return out
 
 
@@ -532,6 +538,8 @@ def _stmt_worker(args):
         it = stmts.skeleton_structures()
     elif depth == 5:
         it = stmts.skeleton_flags()
+    elif depth == 6:
+        it = stmts.skeleton_returns()
     else:
         it = stmts.depth2(atoms)
     bad = []
@@ -637,6 +645,17 @@ def rounding_envs():
 def confirm_tree_finding(f):
     """Run the real back ends on the counterexample; bitwise different results confirm it."""
     t = eval(f["tree"], {k: getattr(ir, k) for k in dir(ir) if not k.startswith("_")})  # repr of our own tree
+    if f["kind"] == "llvm-malformed" and f.get("backend") == "c":
+        # an ill-formed C constant: the real back ends must then disagree on some input
+        try:
+            envs0 = rounding_envs()[:6]
+            res0 = real_backends_expr(t, envs0)
+        except Exception as e:  # noqa: BLE001
+            return {"confirmed": False, "error": f"{type(e).__name__}: {e}"[:200]}
+        for ev, (cv, lv) in zip(envs0, res0 or []):
+            if cv != lv or struct_bits(cv) != struct_bits(lv):
+                return {"confirmed": True, "env": ev, "c": repr(cv), "llvm": repr(lv)}
+        return {"confirmed": False, "note": "the real back ends agree"}
     if f["kind"] == "llvm-malformed":
         # replay = the real LLVM verifier on the real module
         import llvmlite.binding as llvm
@@ -925,8 +944,8 @@ def run(tier):
         stmt_stats = {"programs": 0, "paths": 0, "rejected": 0}
         stmt_bad = []
         # 3 = control-structure skeletons (every nesting of block / if / if-else / else-only up to 4 leaves);
-        # 5 = the flag-decorated skeletons (thorough: the back ends do not interpret flags)
-        for depth, stride in [(0, 1), (1, 1), (2, 6 if tier == "quick" else 1), (3, 1)] + ([(5, 1)] if tier != "quick" else []):
+        # 5 = the flag-decorated skeletons (thorough: the back ends do not interpret flags); 6 = early returns and loops
+        for depth, stride in [(0, 1), (1, 1), (2, 6 if tier == "quick" else 1), (3, 1), (6, 3 if tier == "quick" else 1)] + ([(5, 1)] if tier != "quick" else []):
             for st, bad in pool.imap_unordered(_stmt_worker, [(s, procs, depth, stride, seed) for s in range(procs)]):
                 for k in stmt_stats:
                     stmt_stats[k] += st[k]
